@@ -23,6 +23,9 @@ def jsonable(v, depth=0):
     return repr(v)[:300]
 
 
+RESOURCE_LIMITS = ("path-limit", "loop-bound", "combo-limit", "call-depth", "fork-limit", "floor", "rule-coverage-floor")
+
+
 class Run:
     def __init__(self, pid, tier="quick", repo="/repo", out_dir=None, evidence_path=None,
                  findings_path=None, quiet=False):
@@ -96,9 +99,15 @@ class Run:
                 return
         self.violations.append(v)
 
+    # an exploration budget that ran out after violations were already established does not take them back: the run reports
+    # them (exit 1) and prints the limit as what stopped it; every other analysis error is a broken check (exit 2)
     def floor(self, name, measured, minimum):
         self.floors.append({"name": name, "measured": measured, "floor": minimum})
         if measured < minimum:
+            if any((self.pid, v["rule"], v["construct"]) not in self.known for v in self.violations):
+                # fewer instances on a tree that is already reported as violating: part of what is wrong with it
+                self.notes.append("%s: %d instances < confirmed floor %d (violations are reported)" % (name, measured, minimum))
+                return
             raise AnalysisError("floor", "%s: %d instances < confirmed floor %d" % (name, measured, minimum))
 
     def require(self, cond, reason, detail=""):
@@ -178,7 +187,7 @@ class Run:
             os.replace(tmp, self.evidence_path)
         self.lines = lines
         self.new_violations = new
-        if error is not None:
+        if error is not None and not (new and error.reason in RESOURCE_LIMITS):
             code = 2
         elif new:
             code = 1
